@@ -15,7 +15,7 @@ import json, os, random, threading
 import vlib
 
 PID = "C13"
-WITNESSES = ("NeverClosed", "NeverStopped", "NeverTolerated", "NeverReset", "NeverLateClose")
+WITNESSES = ("NeverClosed", "NeverStopped", "NeverTolerated", "NeverReset", "NeverLateClose", "NeverDrained")
 LEVELS = ("func", "server", "client")
 TLC_WORKERS = 4
 
@@ -27,7 +27,7 @@ def consumed(c):
     if c["closeAt"] >= 0:
         return (pre, c["T"], "-", 0)
     # open runs differ by when the owner closes (script length) and how
-    return (pre, c["T"], c["end"], len(c["pattern"]))
+    return (pre, c["T"], c["end"] + str(c["drain"]), len(c["pattern"]))
 
 
 def got_of(e):
@@ -42,7 +42,7 @@ def sig_of(inv, e):
     pre = "".join(p["o"] for p in e["pings"]) or "-"
     s = "%s:%s:pattern=%s:T=%d:%s" % (inv, e["level"], pre, e["T"], got_of(e))
     if e["closed"] < 0:
-        s += ":end=" + e["end"]
+        s += ":end=" + e["end"] + (str(e["drain"]) if e["end"] == "drain" else "")
     if inv == "NoLeftovers":
         s += ":left=%d:exit=%s" % (e["left"], "clean" if e["exit"] == "clean" else "stuck")
     return s
@@ -59,6 +59,9 @@ def run(tier, seed, replay):
         "client-side keep-alive exists only on legacy-protocol sessions: client scenarios pin 2024-11-05 .. 2025-11-25",
         "'no timer left behind' is observed as: no ping, no goroutine and a clean bubble exit during 24 virtual hours; "
         "an unreferenced, never-firing-into-anything ticker cannot be observed from Go",
+        "ping attempts are observed with a sending middleware (session levels), so pings refused locally by a closing connection count",
+        "owner-Close-during-drain: the peer's request (tools/call on servers, sampling/createMessage on clients) runs a handler that "
+        "ignores its context and is released 1 or 2 intervals after Close began",
         "TLC exhaustive results are for scripts of length <= 6 and the stated thresholds",
     ]
     out = vlib.outdir(PID)
@@ -94,7 +97,7 @@ def run(tier, seed, replay):
     if not gres.ok:
         raise vlib.MachineryError("case generation failed: %s" % gres.violation)
     cases = [p for p in gres.printed if isinstance(p, dict) and "pattern" in p and "closeAt" in p]
-    cases.sort(key=lambda c: (len(c["pattern"]), c["pattern"], c["T"], c["end"]))
+    cases.sort(key=lambda c: (len(c["pattern"]), c["pattern"], c["T"], c["end"], c["drain"]))
     for i, c in enumerate(cases):
         c["id"] = i
     ncases = len(cases)
@@ -108,7 +111,8 @@ def run(tier, seed, replay):
     if replay:
         rep = json.load(open(replay))["replay"]
         want = rep["case"]
-        match = [c for c in cases if c["pattern"] == want["pattern"] and c["T"] == want["T"] and c["end"] == want["end"]]
+        match = [c for c in cases if c["pattern"] == want["pattern"] and c["T"] == want["T"] and c["end"] == want["end"]
+                 and c["drain"] == want.get("drain", 0)]
         if not match:
             raise vlib.MachineryError("replay case not in the exported case set")
         match[0]["levels"] = [rep["level"]]
@@ -116,14 +120,17 @@ def run(tier, seed, replay):
         seeds = [rep["seed"]]
     else:
         seen = set()
-        extra = 1500 if tier == "quick" else ncases
+        extra = 2000 if tier == "quick" else ncases
         pick = set(rng.sample(range(ncases), min(extra, ncases)))
         for c in cases:
             key = consumed(c)
             first = key not in seen
             seen.add(key)
             c["levels"] = list(LEVELS) if (first or c["id"] in pick or tier == "thorough") else ["func"]
-        run_cases = cases
+            if c["end"] == "drain":
+                # a Close that waits for a request handler only exists on real sessions
+                c["levels"] = [l for l in c["levels"] if l != "func"]
+        run_cases = [c for c in cases if c["levels"]]
         v.cov["distinct_runs"] = len(seen)
         if tier == "thorough":
             seeds = [seed, seed + 1000, seed + 2000]
@@ -149,6 +156,9 @@ def run(tier, seed, replay):
             part_rows = vlib.read_ndjson(part)
             if len(part_rows) != expected:
                 raise vlib.MachineryError("harness ran %d of %d scenarios" % (len(part_rows), expected))
+            bad = [r for r in part_rows if r["exit"].startswith("harness:") or r["exit"].startswith("connect:")]
+            if bad:
+                raise vlib.MachineryError("scenario could not be set up (%d): %s %s" % (len(bad), bad[0]["exit"], json.dumps(bad[0])[:400]))
             for r in part_rows:
                 r["seed"] = sd
                 allobs.write(json.dumps(r, separators=(",", ":")) + "\n")
@@ -165,20 +175,21 @@ def run(tier, seed, replay):
     for r in rows:
         by_level[r["level"]] = by_level.get(r["level"], 0) + 1
         if r["pings"]:
-            distinct.add((r["level"], "".join(p["o"] for p in r["pings"]), r["T"], r["end"] if r["closed"] < 0 else "-",
+            distinct.add((r["level"], "".join(p["o"] for p in r["pings"]), r["T"], (r["end"] + str(r["drain"])) if r["closed"] < 0 else "-",
                           len(r["pattern"]) if r["closed"] < 0 else 0))
     v.cov["scenarios_by_level"] = by_level
     v.cov["distinct_nontrivial"] = len(distinct)
     v.cov["closed_by_keepalive"] = sum(1 for r in rows if r["closed"] >= 0)
     v.cov["stopped_on_method_not_found"] = sum(1 for r in rows if any(p["o"] == "m" for p in r["pings"]))
     v.cov["owner_closed_with_ping_in_flight"] = sum(1 for r in rows if any(p["o"] == "u" for p in r["pings"]))
+    v.cov["owner_closed_while_handler_running"] = sum(1 for r in rows if r["released"] >= 0)
     v.cov["rule"] = ("cases = every terminal behaviour of KeepAlive.tla (all outcome scripts over {a,t,m,c} of length <= 6 x thresholds "
-                     "{0,1,2,3} x owner closes idle/in-flight), each run at the function level; session levels (server, client) run every "
+                     "{0,1,2,3} x owner closes idle / with a ping in flight / while a request handler keeps Close waiting for 1 or 2 intervals (session levels only)), each run at the function level; session levels (server, client) run every "
                      "distinct run (consumed script prefix, threshold, closing mode) plus a seeded sample (quick) or every case (thorough, "
                      "3 concretisation seeds); distinct = (level, outcomes actually consumed, threshold, closing mode); non-trivial = at least one ping")
     v.cov["exhaustive"] = not replay
     for r in rows[:: max(1, len(rows) // 5)][:5]:
-        v.sample({k: r[k] for k in ("level", "pattern", "T", "end", "I", "pings", "closed", "userClose", "left", "exit")})
+        v.sample({k: r[k] for k in ("level", "pattern", "T", "end", "drain", "I", "pings", "attempts", "closed", "userClose", "kaEarly", "kaAlive", "left", "exit")})
     vio = []
     for f in fails:
         e = rows[f["line"] - 1]
@@ -196,9 +207,10 @@ def run(tier, seed, replay):
         seen_sig.add(sig)
         if len(seen_sig) > 12 and sig not in v.known:
             continue
-        case = {"pattern": e["pattern"], "T": e["T"], "end": e["end"]}
+        case = {"pattern": e["pattern"], "T": e["T"], "end": e["end"], "drain": e["drain"]}
         v.violation(sig, "real keep-alive run violates %s: level=%s script=%s threshold=%d interval=%dus: %s, pings %s, owner close %s, left=%d exit=%s" % (
             inv, e["level"], "".join(e["pattern"]) or "-", e["T"], e["I"], got_of(e),
-            [(p["at"], p["o"]) for p in e["pings"]], e["userClose"], e["left"], e["exit"][:80]),
+            [(p["at"], p["o"]) for p in e["pings"]], "%s (ping attempts %s, keep-alive loops alive after Close began %d / settled %d)" % (
+                e["userClose"], e["attempts"], e["kaEarly"], e["kaAlive"]), e["left"], e["exit"][:80]),
             {"case": case, "level": e["level"], "seed": e["seed"], "observation": e})
     return v.finish()
